@@ -26,15 +26,14 @@
 (* and the code as it is (dev = AsIs) side by side:                         *)
 (*   ElideDelDefault  explicit delete equal to the TYPE default is dropped  *)
 (*                    (`!del []`, `!merge {..}`, `!del {x: !merge {..}}`)    *)
+(*   ElideDelParent   explicit delete equal to the enclosing entry dropped   *)
+(*                    (differs once `!prev` moves the node elsewhere)        *)
 (*   ElideNewDefault  explicit allow_new = True dropped (`!notnew{x: !new}`)*)
 (*   ElideSafeDefault explicit safe equal to the source's default dropped   *)
 (*   ElideSafeParent  explicit safe equal to the enclosing entry dropped    *)
 (*   PlainTagNotPushed a flag written as a plain tag is not pushed: the      *)
 (*                    children are compared with an OUTER container's entry *)
 (*   SafeTagTrue      a lone safe=True is written as `!safe` (unparsable)   *)
-(*   KindTagNoMd      !append !prev !include !import have no `!tag:<enc>`    *)
-(*                    constructor: such a node holding a flag (a priority   *)
-(*                    pushed down by a tagged container) dumps unparsably   *)
 (*   NullDropsFlags   None is written as bare `!null`: flags + metadata lost*)
 (*   ClearNoValue     dumping a !clear node raises AttributeError           *)
 (*   PathNoRefWraps   `!path` without reference point: the dumped mapping   *)
@@ -46,9 +45,8 @@
 (***************************************************************************)
 EXTENDS AyMerge
 
-AllDeviations == {"ElideDelDefault", "ElideNewDefault", "ElideSafeDefault", "ElideSafeParent",
-                  "PlainTagNotPushed", "SafeTagTrue", "KindTagNoMd", "NullDropsFlags", "ClearNoValue", "PathNoRefWraps",
-                  "ReprQuoting"}
+AllDeviations == {"ElideDelDefault", "ElideDelParent", "ElideNewDefault", "ElideSafeDefault", "ElideSafeParent",
+                  "PlainTagNotPushed", "SafeTagTrue", "NullDropsFlags", "ClearNoValue", "PathNoRefWraps", "ReprQuoting"}
 
 NullAtom == <<"n", "">>
 IsNullNode(n) == n.k = "scalar" /\ n.v = NullAtom
@@ -68,18 +66,17 @@ Stack0 == [pr |-> PrNone, del |-> "N", anew |-> "N", safe |-> "N"]
 \* time, and None and 0 are the same priority.
 KeepPr(n, st) == IF n.pr = PrNone \/ n.pr = st.pr \/ n.pr = 0 THEN PrNone ELSE n.pr
 
-\* delete.  Intended: dropped when equal to the enclosing entry (the node then
-\* inherits exactly that value, and explicit_delete is consulted only by the
-\* remove-emptied rule, composed.py:315-323, which a deleting parent never
-\* reaches: TLC finds no history that tells the two apart) and for a function
-\* node's True, which FunctionNode.__init__ restores (function.py:44).  NOT
-\* when merely equal to the node's own type default: that still differs from
-\* what the node would inherit, and explicit_delete of an empty `!del []` is
-\* the remove-this-key idiom.
+\* delete.  Intended: an explicit delete is always written: explicit_delete of
+\* an empty `!del []` is the remove-this-key idiom (composed.py:315-323); a
+\* value equal to the node's own type default still differs from what the
+\* node would INHERIT; and a value equal to what it inherits here stops being
+\* so once `!prev` moves the node under another parent.  The one exception is
+\* a function node's True, which FunctionNode.__init__ restores (function.py:44).
 KeepDel(n, st, dev) ==
-    IF n.del = "N" \/ n.del = st.del THEN "N"
+    IF n.del = "N" THEN "N"
     ELSE IF IsFn(n) /\ n.del = "T" THEN "N"
     ELSE IF "ElideDelDefault" \in dev /\ n.del = Tri(TypeDefaultDelete(n)) THEN "N"
+    ELSE IF "ElideDelParent" \in dev /\ n.del = st.del THEN "N"
     ELSE n.del
 
 \* allow_new: equal to the enclosing entry may go (the child inherits exactly
@@ -115,7 +112,9 @@ ReprText(s) == IF s = "a\\b" THEN "a\\\\b"
                ELSE IF s = "a\\\\b" THEN "a\\\\\\\\b"
                ELSE s
 ReprKinds == {"scalar", "eval", "fstr", "import"}
-\* kinds whose tag has no multi-constructor (yaml.py:486-521)
+\* kinds whose tag has no multi-constructor (yaml.py:486-521): they cannot be
+\* given flags in YAML; the only flag they ever hold is a priority pushed down
+\* by a tagged container, which a correct stack lets them omit
 NoMdKinds == {"append", "prev", "include", "import"}
 \* FStrNode has no tag of its own: it is written as the !eval of its f-string
 \* (fstr.py:19-49; the same evaluation for one-line code).  Class identity of
@@ -159,7 +158,7 @@ DumpNode(n, st, dev) ==
                                <<SKey("ref_point"), SDRec("scalar", <<"s", "">>, <<>>, "", <<>>, "none", Stack0, {})>> >>,
                             "", <<>>, "none", Stack0, {})>> >>
     IN IF n.k = "clear" /\ "ClearNoValue" \in dev THEN DumpErrSD    \* clear.py has no value
-       ELSE IF n.k \in NoMdKinds /\ form = "md" /\ "KindTagNoMd" \in dev
+       ELSE IF n.k \in NoMdKinds /\ form = "md"      \* `!append:<enc>` ...: no such constructor (yaml.py:486-521)
        THEN SDRec(n.k, v, kids, n.fn, n.ref, "noctor", r, md)
        ELSE IF n.k = "path" /\ n.fn = "" /\ "PathNoRefWraps" \in dev
        THEN (IF form = "md"        \* yaml.py:416-423: `!path:<enc>` = reference point <enc>, then data's ref_point '' wins
@@ -187,32 +186,35 @@ ParseD(sd, srcSafe) ==
 RoundTrip(t, dev) == ParseD(Dump(t, dev), t.dsafe = "T")
 
 ----------------------------------------------------------------------------
-\* What a merged configuration lets one observe: its data, user metadata, and
-\* the flags of the RESULT that the next stage or evaluation is certain to
-\* consult: effective priority (every later contest), safety of the nodes
-\* that execute code, and the safety a container hands to children added
-\* later.  delete / allow_new of a result are consulted only while the node
-\* is the NEWER side of a merge: those show as data in the contexts.
+\* What a merged configuration lets one observe: its data, user metadata, the
+\* effective priority of every node (every later contest consults it) and -
+\* because Config evaluates a deep COPY of the merged tree, whose attach steps
+\* re-derive every inherited flag from the parent's current attributes
+\* (composed.py:346-378, set_child) - the safety, in that copy, of the nodes
+\* that execute code and of what containers hand to children added later.
+\* delete / allow_new of a result are consulted only while the node is the
+\* NEWER side of a merge: those show as data in the contexts.
 SafeKinds == {"call", "bind", "eval", "fstr", "import", "include"}
 
-RECURSIVE Obs(_)
-Obs(n) == [k |-> KindClass(n.k), v |-> n.v, fn |-> n.fn, ref |-> n.ref, md |-> n.md, pr |-> EffPr(n),
-           safe  |-> IF n.k \in SafeKinds THEN EffSafe(n) ELSE TRUE,
-           ksafe |-> IF IsComposed(n) THEN ChildKw(n).isafe # "F" ELSE TRUE,
-           ch |-> [i \in 1..Len(n.ch) |-> <<n.ch[i][1], Obs(n.ch[i][2])>>]]
-ObsR(x) == IF IsErr(x) THEN [err |-> x.err] ELSE Obs(x)
+\* copy.deepcopy: children are rebuilt first, then attached through set_child
+RECURSIVE CopyT(_)
+CopyT(n) == [n EXCEPT !.ch = [i \in 1..Len(n.ch) |->
+                <<n.ch[i][1], Adopt(CopyT(n.ch[i][2]), ChildKw(n), FALSE, PrNone)>>]]
 
-\* Obs(a) = Obs(b), evaluated without building the two observations
-ObsFlagsEq(a, b) ==
-    /\ KindClass(a.k) = KindClass(b.k) /\ a.v = b.v /\ a.fn = b.fn /\ a.ref = b.ref /\ a.md = b.md /\ EffPr(a) = EffPr(b)
-    /\ (a.k \in SafeKinds => EffSafe(a) = EffSafe(b))
-    /\ (IsComposed(a) => (ChildKw(a).isafe # "F") = (ChildKw(b).isafe # "F"))
-    /\ Len(a.ch) = Len(b.ch)
-RECURSIVE ObsEq(_, _)
-ObsEq(a, b) ==
+RECURSIVE MergeObsEq(_, _), SafeObsEq(_, _)
+MergeObsEq(a, b) ==
     \/ a = b
-    \/ /\ ObsFlagsEq(a, b)
-       /\ \A i \in 1..Len(a.ch) : a.ch[i][1] = b.ch[i][1] /\ ObsEq(a.ch[i][2], b.ch[i][2])
+    \/ /\ KindClass(a.k) = KindClass(b.k) /\ a.v = b.v /\ a.fn = b.fn /\ a.ref = b.ref /\ a.md = b.md
+       /\ EffPr(a) = EffPr(b) /\ Len(a.ch) = Len(b.ch)
+       /\ \A i \in 1..Len(a.ch) : a.ch[i][1] = b.ch[i][1] /\ MergeObsEq(a.ch[i][2], b.ch[i][2])
+\* on two copies of equal shape
+SafeObsEq(a, b) ==
+    \/ a = b
+    \/ /\ (a.k \in SafeKinds => EffSafe(a) = EffSafe(b))
+       /\ (IsComposed(a) => (ChildKw(a).isafe # "F") = (ChildKw(b).isafe # "F"))
+       /\ \A i \in 1..Len(a.ch) : SafeObsEq(a.ch[i][2], b.ch[i][2])
+
+ObsEq(a, b) == a = b \/ (MergeObsEq(a, b) /\ SafeObsEq(CopyT(a), CopyT(b)))
 ObsREq(x, y) == IF IsErr(x) \/ IsErr(y) THEN IsErr(x) /\ IsErr(y) /\ x.err = y.err ELSE ObsEq(x, y)
 
 RECURSIVE DataD(_), MdTree(_)
@@ -222,7 +224,7 @@ MdTree(n) == [md |-> n.md, ch |-> [i \in 1..Len(n.ch) |-> <<n.ch[i][1], MdTree(n
 
 \* a context: a merge history with a hole; here as the sequence of parsed
 \* documents with the candidate put into the hole
-SameIn(hist_t, hist_u) == ObsR(FoldDocs(hist_t)) = ObsR(FoldDocs(hist_u))
+SameIn(hist_t, hist_u) == ObsREq(FoldDocs(hist_t), FoldDocs(hist_u))
 
 SameValue(t, u) == ~IsErr(u) /\ DataD(u) = DataD(t)
 SameMd(t, u)    == ~IsErr(u) /\ MdTree(u) = MdTree(t)
